@@ -61,6 +61,24 @@ def text_pool():
         for ft in fail_tails:
             t.append(h + "\n" + ft)
     t += fail_tails
+    # deep nesting, valid and rejected by the AST builder inside the nesting (anything counted or stacked per
+    # level must be unwound on failure too); long histories below let small per-failure leaks add up
+    def nest(k, core):
+        return "DS_r <- " + "(" * k + core + ")" * k + ";"
+    for k in (10, 40, 80):
+        t.append(nest(k, "DS_1 + 1"))
+    for k in (10, 30, 60):
+        t.append(nest(k, "eval(f(DS_1) returns dataset {identifier<integer> Id_1})"))
+        t.append(nest(k, 'time_agg("A")') + "\nDS_s <- DS_1;")
+    # comment-bearing texts: prettify / create_ast_with_comments merge the comment channel of *this* parse
+    # into the statements of *this* AST by position
+    t += ["/* head */\nDS_r <- DS_1 + DS_2; // after first\n/* between */ DS_s := DS_r * 2; /* tail */",
+          "// only line comment\nDS_r <- DS_1;",
+          "DS_r <- DS_1 /* inner */ + DS_2;\n\n\n// far below\n",
+          "/* a */ /* b */ /* c */ DS_r <- DS_1; /* d */",
+          "define operator f1 (x dataset, y dataset) /* sig */ returns dataset is x + y /* body */ end operator; // def done\nDS_r <- f1(DS_1, DS_2); // call",
+          HR.format(n="HR_1", c="Id_2") + " /* ruleset comment */\nDS_r <- check_hierarchy(DS_1, HR_1 rule Id_2); // use",
+          "DS_r <- DS_1;\nDS_s <- DS_2;\nDS_t <- DS_1 + DS_2; /* only the third has a comment */"]
     t += ["DS_r <- DS_1 + DS_2; /* c1 */ DS_s := DS_r[filter Me_1 > 1]; // tail",
           "/* only a comment */", "", "   \n\n", "DS_r <- DS_1 +;", "DS_r <- ;", "define hierarchical ruleset HR_1 (variable rule Id_2) is A = end",
           "DS_r <- DS_1[calc Me_2 := Me_1 * 2][filter Me_2 > 3][keep Me_2];",
@@ -268,6 +286,8 @@ def run(ctx):
     hist = []
     for h in range(n):
         k = rng.choice([2, 2, 3, 3, 4, 5, 6, 8])
+        if rng.random() < 0.12:
+            k = rng.choice([16, 24, 40, 60])          # long histories: accumulation
         if rng.random() < 0.5:
             # a small working set per history, so that variants of the same text (and definitions and uses of the same names) meet
             ws = [op for st in rng.sample(stems, min(2, len(stems))) for op in by_stem[st]]
